@@ -5,6 +5,7 @@ import (
 	"testing"
 
 	"github.com/idena-network/idena-go/blockchain/types"
+	"github.com/idena-network/idena-go/core/state"
 	"pgregory.net/rapid"
 
 	"verifharness/internal/evid"
@@ -25,10 +26,28 @@ func TestHonestProposalAcceptedIdentityHeavy(t *testing.T) {
 		types.SendTx, types.SubmitFlipTx, types.DeleteFlipTx, types.ChangeGodAddressTx, types.SubmitAnswersHashTx, types.SubmitShortAnswersTx, types.SubmitLongAnswersTx, types.EvidenceTx})
 }
 
-func honestProposal(t *testing.T, only []types.TxType) {
+// Long histories with validations in quick succession, so that proposals are built in the ceremony periods of
+// epochs >= 1 (VRF-checked long answers, invitations of validated identities, dust clearing behind them), with a
+// mempool dominated by ceremony transactions incl. several of one sender.
+func TestHonestProposalAcceptedLaterEpochs(t *testing.T) {
+	honestProposalOpt(t, []types.TxType{types.SubmitAnswersHashTx, types.SubmitShortAnswersTx, types.SubmitLongAnswersTx, types.SubmitLongAnswersTx, types.EvidenceTx,
+		types.SendTx, types.SubmitFlipTx, types.InviteTx, types.ActivationTx, types.OnlineStatusTx, types.KillTx}, 70, func(p *sim.Params) {
+		p.CeremonyIn, p.Interval = 150, 420
+		for i := range p.States {
+			if i > 0 && p.States[i] == state.Undefined {
+				p.States[i] = state.Verified
+				p.Stakes[i] = sim.Dna(int64(5 + i))
+			}
+		}
+	})
+}
+
+func honestProposal(t *testing.T, only []types.TxType) { honestProposalOpt(t, only, 25, nil) }
+
+func honestProposalOpt(t *testing.T, only []types.TxType, steps int, params func(*sim.Params)) {
 	rapid.Check(t, func(t *rapid.T) {
 		nontrivialProposals := 0
-		opt := sim.Options{MinActors: 3, MaxActors: 10, Replicas: 2, MaxReplicas: 5, Steps: 25, MaxTxPerStep: 8, Zones: true, Restarts: true, OnlyTypes: only}
+		opt := sim.Options{MinActors: 3, MaxActors: 10, Replicas: 2, MaxReplicas: 5, Steps: steps, MaxTxPerStep: 8, Zones: true, Restarts: true, OnlyTypes: only, Params: params}
 		opt.BeforeDeliver = func(h *sim.History, proposer *sim.Replica, blk *types.Block) bool {
 			evid.Eval()
 			if proposer == nil {
@@ -63,6 +82,10 @@ func honestProposal(t *testing.T, only []types.TxType) {
 					mix[sim.TxTypeNames[tx.Type]]++
 				}
 				period := sim.PeriodName(proposer.ReadState().State.ValidationPeriod())
+			if proposer.ReadState().State.Epoch() > 0 {
+				evid.Count("proposal.nontrivial_in_epoch_ge_1")
+				period += "@e" + fmt.Sprint(proposer.ReadState().State.Epoch())
+			}
 				d := fmt.Sprintf("%s|%s|%s|mix=%v|leftOut=%d", h.W.P.Profile, period, sim.FlagNames(blk.Header.Flags()), mix, leftOut)
 				evid.NonTrivial(d)
 				evid.Count("proposal.nontrivial")
